@@ -62,9 +62,12 @@ impl<'a> List<'a> {
     //@ at_start: let ghost rem0 = self.remaining@; proof { if rem0.len() >= 3 { lemma_first_at_shift(rem0, 3, 0, 0x22u8); lemma_first_at_bounds(rem0.subrange(3, rem0.len() as int), 0, 0x22u8); assert(rem0.subrange(0, 3) =~= seq![rem0[0], rem0[1], rem0[2]]); } if rem0.len() >= 1 { lemma_first_at_shift(rem0, 1, 0, 0x22u8); lemma_first_at_bounds(rem0.subrange(1, rem0.len() as int), 0, 0x22u8); assert(rem0.subrange(0, 1) =~= seq![rem0[0]]); } }
     //@ before "let Some(end) = end else": proof { lemma_first_at_bounds(rem0, 3, 0x22u8); lemma_first_at_bounds(rem0, 1, 0x22u8); }
     //@ after "slice_split_at(self.remaining, end + 1);": let ghost rest0 = rem@;
-    //@ loop 1: invariant skip_ows(rem@) == skip_ows(rest0.subrange(1, rest0.len() as int)), decreases rem@.len(),
-    //@ after "let tail = slice_from(rem, 1);": proof { lemma_skip_ows_step(rem@); }
-    //@ before "self.remaining = rem;": proof { if rest0.len() > 0 && rest0[0] == 0x2cu8 { lemma_skip_ows_done(rem@); } }
+    //@ loop 1: invariant skip_ows(next@) == skip_ows(rest0), decreases next@.len(),
+    //@ loop 2: invariant skip_ows(next@) == skip_ows(r1.subrange(1, r1.len() as int)), decreases next@.len(),
+    //@ after "let tail = slice_from(next, 1);" #1: proof { lemma_skip_ows_step(next@); }
+    //@ after "let tail = slice_from(next, 1);" #2: proof { lemma_skip_ows_step(next@); }
+    //@ before "if next.len() >= 1 && next[0] == ": proof { lemma_skip_ows_done(next@); } let ghost r1 = next@;
+    //@ before "self.remaining = next;": proof { if r1.len() > 0 && r1[0] == 0x2cu8 { lemma_skip_ows_done(next@); } }
     //@end
 }
 
